@@ -185,7 +185,8 @@ CHECKS = {
             "Public keys vs cryptography/py_ecc derivation, pkh vs own base58+blake2b and HASH_KEY, plain/encrypted "
             "export-import (seed and 64-byte Ed25519 forms), wrong passphrase rejected, validate_mnemonic iff own "
             "BIP-39 checksum, from_mnemonic deterministic and equal to an independent PBKDF2 derivation, the wallet-file route "
-            "(from_faucet) under the same acceptance rule.",
+            "(from_faucet) under the same acceptance rule; a volume tier derives public key and address for hundreds of further "
+            "secrets per curve.",
             "Wordlist data comes from the `mnemonic` package. A BIP-39 seed that is not a valid scalar of the curve "
             "(common for BLS) may be refused; only determinism is required there.", "9/C08"),
     "C23": ("hypothesis PBT with independent signature verification over watermark || reference-encoded bytes",
